@@ -4,14 +4,16 @@ package main
 // run in a child process built with -race (work/zapdrive-race next to this binary, when
 // present), with recover() around every call and a progress watchdog in the parent.
 //
-// wire case:   input = ( (thread ...) (tid ...) ),  thread = ( (instance #unit) ... )
+// wire case:   input = ( (thread ...) (tid ...) [shape:<word>] ),  thread = ( (instance #unit) ... )
 //              obs   = ( race deadlock panic 0 )
+// (the third element, present for shaped scenarios only, says how the shared object was
+// derived before it was shared; it selects the real object graph and is not read by the model)
 // The input is the program at the level of the access summaries (which summaries each
 // goroutine runs on which shared object) plus one seeded schedule for the Coq
 // interleaving semantics; the observation is what the race detector / watchdog /
 // recover saw while the real API calls ran.  A race report, a stuck watchdog or an
 // unexpected panic is additionally reported through ctx.Viol with the API-level
-// program (scenario, fresh|warm, op names per goroutine) + seed + index as replay.
+// program (scenario[:shape.], fresh|warm, op names per goroutine) + seed + index as replay.
 
 import (
 	"bufio"
@@ -39,6 +41,7 @@ type c09op struct {
 	units    []c09call
 	mut      bool // changes shared state
 	mayPanic bool // Panic / Fatal-with-panic-hook: a panic is the documented behaviour
+	derive   bool // builds a new object (logger, core, handler) from the SHARED one: two goroutines doing it make siblings
 }
 
 type c09scen struct {
@@ -48,6 +51,7 @@ type c09scen struct {
 
 type c09prog struct {
 	scen    int
+	shape   string // shaped scenarios only: how the shared object was derived before it was shared (c09_scen.go)
 	warm    bool
 	class   string
 	threads [][]int
@@ -87,16 +91,42 @@ func cat(ls ...[]c09call) []c09call {
 
 // ---------------------------------------------------------------- generation (deterministic)
 
+// directed shapes of the shaped scenarios (see c09shapeDoc in c09_scen.go): every number of
+// pending groups 0..9 (whatever growth policy a slice of pending names has, some of these
+// lengths leave spare capacity), and the same depths reached with attrs in between
+var c09pureShapes = []string{"", "g", "gg", "ggg", "gggg", "ggggg", "gggggg", "ggggggg", "gggggggg", "ggggggggg"}
+var c09mixedShapes = []string{"aggg", "gaggg", "gegg", "ggeg", "ggge", "eggg", "gngg", "gggag", "gagaggg", "ggggeg", "gggeggg", "ggagggggn"}
+
+func c09randShape(r *RNG) string {
+	var b []byte
+	for n := r.Intn(4); n > 0; n-- { // a prefix of anything
+		b = append(b, "ggaaen"[r.Intn(6)])
+	}
+	for d := r.Intn(10); d > 0; d-- { // then 0..9 groups left pending, attrs without a field in between
+		b = append(b, 'g')
+		if r.Chance(12) {
+			b = append(b, "en"[r.Intn(2)])
+		}
+	}
+	return string(b)
+}
+
 func c09programs(seed uint64, thorough bool) []c09prog {
 	r := NewRNG(seed)
 	var out []c09prog
 	nops := make([]int, len(c09scens))
-	for i, s := range c09scens {
-		sc := s.build(false)
+	derive := make([][]int, len(c09scens))
+	for i := range c09scens {
+		sc := c09build(i, false, "")
 		nops[i] = len(sc.ops)
+		for j := range sc.ops {
+			if sc.ops[j].derive {
+				derive[i] = append(derive[i], j)
+			}
+		}
 		sc.cleanup()
 	}
-	mk := func(scen int, warm bool, class string, threads [][]int) {
+	mkS := func(scen int, shape string, warm bool, class string, threads [][]int) {
 		total := 0
 		for _, t := range threads {
 			total += len(t)
@@ -109,7 +139,17 @@ func c09programs(seed uint64, thorough bool) []c09prog {
 		for i := range sched {
 			sched[i] = r.Intn(len(threads) + 2) // + possibly spawned threads
 		}
-		out = append(out, c09prog{scen: scen, warm: warm, class: class, threads: threads, sched: sched})
+		out = append(out, c09prog{scen: scen, shape: shape, warm: warm, class: class, threads: threads, sched: sched})
+	}
+	// the shapes a directed class runs a scenario on
+	shapesOf := func(s int, all bool) []string {
+		if c09scens[s].shaped == nil {
+			return []string{""}
+		}
+		if !all {
+			return c09pureShapes
+		}
+		return append(append([]string{}, c09pureShapes...), c09mixedShapes...)
 	}
 	// 1. directed: many goroutines doing the first op (a plain log call) on a fresh object
 	reps := 12
@@ -117,33 +157,66 @@ func c09programs(seed uint64, thorough bool) []c09prog {
 		reps = 60
 	}
 	for s := range c09scens {
+		shapes := shapesOf(s, true)
 		for k := 0; k < reps; k++ {
 			ng := 2 + k%7
 			th := make([][]int, ng)
 			for g := range th {
 				th[g] = []int{0}
 			}
-			mk(s, false, "fresh-burst", th)
+			mkS(s, shapes[k%len(shapes)], false, "fresh-burst", th)
 		}
 	}
-	// 2. every ordered pair of operations of every scenario, two goroutines, fresh object
+	// 2. every unordered pair of operations of every scenario (every pure shape), two goroutines, fresh object
 	for s := range c09scens {
-		for i := 0; i < nops[s]; i++ {
-			for j := i; j < nops[s]; j++ {
-				mk(s, false, "pairs", [][]int{{i, i}, {j, j}})
-				if thorough {
-					mk(s, true, "pairs-warm", [][]int{{i, j}, {j, i}, {i}})
+		for _, shape := range shapesOf(s, thorough) {
+			for i := 0; i < nops[s]; i++ {
+				for j := i; j < nops[s]; j++ {
+					mkS(s, shape, false, "pairs", [][]int{{i, i}, {j, j}})
+					if thorough {
+						mkS(s, shape, true, "pairs-warm", [][]int{{i, j}, {j, i}, {i}})
+					}
 				}
 			}
 		}
 	}
-	// 3. seeded random programs: 2..8 goroutines, 1..12 calls each, fresh or warmed up
-	N := 1300
+	// 3. siblings: every operation that derives a new object from the shared one, done by 2..8
+	// goroutines at once (the derived objects are siblings: whatever they inherit from the
+	// shared parent -- context slices, pending group names, option lists -- must not be
+	// written through), alone and next to one reader of the shared object and of the
+	// siblings made before the goroutines started; every shape
+	for s := range c09scens {
+		for _, shape := range shapesOf(s, true) {
+			for _, d := range derive[s] {
+				for _, ng := range []int{2, 3, 8} {
+					th := make([][]int, ng)
+					for g := range th {
+						th[g] = []int{d, d}
+					}
+					mkS(s, shape, false, "siblings", th)
+				}
+				o := r.Intn(nops[s])
+				mkS(s, shape, false, "siblings-mixed", [][]int{{d, o, d}, {d, d}, {o, d, o}, {d}})
+				if thorough {
+					for _, d2 := range derive[s] {
+						mkS(s, shape, true, "siblings-warm", [][]int{{d, d2}, {d2, d}, {d, d}, {d2, d2}})
+					}
+				}
+			}
+		}
+	}
+	// 4. seeded random programs: 2..8 goroutines, 1..12 calls each, fresh or warmed up; a
+	// shaped scenario on a random shape
+	N := 1400
 	if thorough {
-		N = 20000
+		N = 22000
 	}
 	for k := 0; k < N; k++ {
 		s := r.Intn(len(c09scens))
+		shape := ""
+		if c09scens[s].shaped != nil {
+			shape = c09randShape(r)
+		}
 		ng := r.Range(2, 8)
 		th := make([][]int, ng)
 		for g := range th {
@@ -158,7 +231,7 @@ func c09programs(seed uint64, thorough bool) []c09prog {
 		if warm {
 			class = "random-warm"
 		}
-		mk(s, warm, class, th)
+		mkS(s, shape, warm, class, th)
 	}
 	return out
 }
@@ -166,7 +239,7 @@ func c09programs(seed uint64, thorough bool) []c09prog {
 // ---------------------------------------------------------------- child: run programs
 
 func c09runProg(p *c09prog) (unexpected int, expected int, first string) {
-	sc := c09scens[p.scen].build(p.warm)
+	sc := c09build(p.scen, p.warm, p.shape)
 	var wg sync.WaitGroup
 	var mu sync.Mutex
 	start := make(chan struct{})
@@ -449,7 +522,7 @@ func c09(c *Ctx) {
 	for i := range progs {
 		p := &progs[i]
 		sc := c09scens[p.scen]
-		scn := sc.build(false)
+		scn := c09build(p.scen, false, p.shape)
 		var threads []SX
 		mut := false
 		total := 0
@@ -486,9 +559,18 @@ func c09(c *Ctx) {
 		if p.warm {
 			fresh = "warm"
 		}
-		c.Emit(L(L(threads...), LI(p.sched)), obs, map[string]string{"nt": nt, "class": cls,
-			"g": strconv.Itoa(len(p.threads)), "ops": strconv.Itoa(total)})
-		replay := L(c09word(sc.name), c09word(fresh), L(replayT...), c09word("seed"), U(c.Seed), c09word("index"), I(i))
+		input := L(L(threads...), LI(p.sched))
+		if sc.shaped != nil {
+			// the shape selects the real object graph only; the access summaries a call runs do not depend on it
+			input = L(L(threads...), LI(p.sched), c09word("shape:"+p.shape))
+		}
+		c.Emit(input, obs, map[string]string{"nt": nt, "class": cls,
+			"g": strconv.Itoa(len(p.threads)), "ops": strconv.Itoa(total), "shape": p.shape})
+		name := sc.name
+		if sc.shaped != nil {
+			name += ":" + p.shape + "." // the shape is part of the program: (scenario:shape. fresh|warm ...)
+		}
+		replay := L(c09word(name), c09word(fresh), L(replayT...), c09word("seed"), U(c.Seed), c09word("index"), I(i))
 		expected += r.expected
 		if r.race {
 			races++
